@@ -13,6 +13,9 @@ func ProbeFuncs() map[string]Builtin {
 		"t":    probeT,
 		"boom": func(in *Interp, c *gt.T) (Val, *RunErr) { return Void, in.errAt(c, "boom") },
 		"void": func(in *Interp, c *gt.T) (Val, *RunErr) { return Void, nil },
+		// sink(a, b=0), vsink(...rest): evaluate their arguments, return nothing (v2 probes)
+		"sink":  probeSink,
+		"vsink": probeSink,
 		"multi": func(in *Interp, c *gt.T) (Val, *RunErr) {
 			if !in.Prog.V2 {
 				unspec("multi() on v1")
@@ -51,6 +54,16 @@ func (in *Interp) args(c *gt.T) ([]Val, *RunErr) {
 		out = append(out, Val{cp, v.T})
 	}
 	return out, nil
+}
+
+func probeSink(in *Interp, c *gt.T) (Val, *RunErr) {
+	if !in.Prog.V2 {
+		unspec("sink() on v1")
+	}
+	if _, err := in.args(c); err != nil {
+		return Void, err
+	}
+	return Void, nil
 }
 
 func probeP(in *Interp, c *gt.T) (Val, *RunErr) {
